@@ -325,6 +325,15 @@ def known_for(prop):
 def mux_check(prop, tier, seed, replay):
     P = MUX[prop]
     t0 = time.time()
+    if replay and prop == "C10":
+        # a replay file of the adapter leg (lines of ws_vec scripts) goes to that family
+        try:
+            first = json.loads(open(replay).readline())
+        except Exception:
+            first = {}
+        if "steps" in first and "role" in first:
+            import fam_ws
+            return fam_ws.check(prop, tier, seed, replay)
     subprocess.run(["python3", os.path.join(vlib.VERIF, "tools", "gen_cfgs.py")], check=True, stdout=subprocess.DEVNULL)
     bin_path = _sim_bin()
     work = tempfile.mkdtemp(prefix=f"{prop}_", dir=vlib.WORK)
@@ -580,6 +589,23 @@ def mux_check(prop, tier, seed, replay):
                 desc = f"threaded stress iteration violates {sorted(b['viol'])}: {slines[b['line'] - 1].strip()}"
                 path = vlib.save_replay(prop, "threads", [slines[b["line"] - 1]], note=desc)
                 violations.append((path, desc))
+        # Leg "adapter" (C10; its anchor penguin-mux/src/ws.rs): the simulator implements the `WebSocket` trait itself, so the
+        # adapter the applications really use -- `impl WebSocket for tokio_tungstenite::WebSocketStream` and the two message
+        # conversions -- is driven by its own family: spec/WsAdapter.tla (contract of the adapter over abstract RFC 6455
+        # messages), TLC-enumerated and random scripts against a hand-written RFC 6455 peer, TLC validates every line
+        ws = None
+        if prop == "C10" and not replay:
+            import fam_ws
+            wr = fam_ws.leg(prop, tier, seed)
+            ws = wr["coverage"]
+            evaluations += ws.get("scripts_validated", 0)
+            traces_ok += ws.get("scripts_validated", 0) - ws.get("scripts_rejected", 0)
+            states += ws.get("states", 0)
+            transitions += ws.get("transitions", 0)
+            log(f"[ws-adapter] {ws.get('scripts_from_tlc')} scripts from TLC + {ws.get('random_scripts')} random, as server and as client: "
+                f"{ws.get('scripts_validated')} script runs / {ws.get('lines_validated')} lines validated by TLC (WsAdapterTrace), {ws.get('scripts_rejected')} rejected")
+            for path, sig, n in wr["violations"]:
+                violations.append((path, f"WebSocket adapter (penguin-mux/src/ws.rs) violates its contract (spec/WsAdapter.tla): signature {sig}, {n} scripts"))
         wall = time.time() - t0
         # verdict
         for k in known_for(prop):
@@ -595,6 +621,7 @@ def mux_check(prop, tier, seed, replay):
             known_limitations_met=sorted(kf_seen), violations_found_by_the_application_level_oracle=api_hits,
             **({"loom_credit_race": loom_c03} if loom_c03 else {}),
             **({"threaded_stress": threads} if threads else {}),
+            **({"websocket_adapter_leg": ws} if ws else {}),
             nonconformance_attributed_to_other_properties=other[:10],
             explanation="TLC exhaustively checks the listed MC_* configurations of spec/PenguinMux.tla (design level); the simulator "
                         "executes harness-random schedules on the real penguin-mux code and TLC validates every recorded trace against "
